@@ -1,6 +1,22 @@
 """Property -> rules table (DESIGN 3) with the evidence texts."""
 
 PROPS = {
+    'C02': {
+        'rules': ['R-cb-linear', 'R-success-guard', 'R-disposition', 'R-commit-gate'],
+        'explanation': 'x', 'level_text': 'x', 'level_note': 'x', 'technique': 'x',
+    },
+    'C12': {
+        'rules': ['R-user-exc-contained', 'R-apply-step'],
+        'explanation': 'x', 'level_text': 'x', 'level_note': 'x', 'technique': 'x',
+    },
+    'C01': {
+        'rules': ['R-apply-step', 'R-append-gate', 'R-commit-gate', 'R-log-owners'],
+        'explanation': 'x', 'level_text': 'x', 'level_note': 'x', 'technique': 'x',
+    },
+    'C04': {
+        'rules': ['R-commit-rule', 'R-match-writes', 'R-ack-after-store', 'R-truncate-on-conflict', 'R-commit-gate', 'R-majority'],
+        'explanation': 'x', 'level_text': 'x', 'level_note': 'x', 'technique': 'x',
+    },
     'C03': {
         'rules': ['R-vote-grant', 'R-term-vote-writes', 'R-majority', 'R-leader-entry', 'R-step-down'],
         'explanation': 'Static discharge of the local Raft election obligations on the parsed source: vote-grant guard '
